@@ -1,5 +1,6 @@
 //@ expect: E0616 alloc
 //@ twin: w9_twin_entities_api
+//@ realname: alloc world::entity::EntitiesRes
 // The allocator behind the entities resource cannot be reached from outside the crate: all shared-access mutation goes through the atomic API.
 use specs::prelude::*;
 pub fn f(e: &specs::world::EntitiesRes) -> Entity {
